@@ -150,7 +150,7 @@ def check(run: Run) -> None:
             run.sample({"src": c["src"], "origin": c["origin"], "cpython": r["py_exc"]["msg"]})
         if r["impl_hang"]:
             continue  # C03
-        traces.append({"id": i, "aok": r["impl_ok"], "bok": False, "a": [], "b": [], "pos": False})
+        traces.append({"id": i, "aok": r["impl_ok"], "bok": False, "a": [], "b": [], "pos": False, "want": [], "spans": []})
     verdicts = validate_traces(run, "AstEq", traces, name="accept")
     for i, (clause, _k) in sorted(verdicts.items()):
         if clause != "ok":
